@@ -103,3 +103,26 @@ func StringAlike() *U[string] {
 func FloatAlike() *U[float64] {
 	return &U[float64]{Name: "float64(0 / smallest positive / -smallest)", Keys: [][]float64{{0, nz}, {math.SmallestNonzeroFloat64}, {-math.SmallestNonzeroFloat64}}}
 }
+
+// Named is a key type with methods (fmt renders it through String, errors through Error).
+type Named struct{ N int }
+
+func (n Named) String() string { return "<named " + string(rune('a'+n.N)) + ">" }
+
+type NamedErr struct{ N int }
+
+func (n NamedErr) Error() string { return "err" }
+
+func Stringers() *U[Named] {
+	return &U[Named]{Name: "struct with a String method", Keys: [][]Named{{{0}}, {{1}}, {{2}}}}
+}
+
+// Errors: interface-typed keys holding comparable error values; NamedErr values render identically.
+func Errors() *U[error] {
+	return &U[error]{Name: "error", Keys: [][]error{{NamedErr{0}}, {NamedErr{1}}, {NamedErr{2}}}}
+}
+
+// Chans: channels as keys (identity).
+func Chans() *U[chan int] {
+	return &U[chan int]{Name: "chan int", Keys: [][]chan int{{make(chan int)}, {make(chan int, 1)}, {make(chan int)}}}
+}
